@@ -248,9 +248,11 @@ func c19Child() {
 		}
 		f, _ := c19Build(ops)
 		f.MTime = types.Time4(c19T0 + rel)
+		c19Mark(c19MarkBegin)
 		if _, err := f.Save(c19UID); err != nil {
 			code = 5
 		}
+		c19Mark(c19MarkEnd)
 	}()
 	os.Exit(code)
 }
@@ -479,6 +481,8 @@ func c19Run(args [][]string) []string {
 		out = append(out, dn...)
 		out = append(out, strconv.Itoa(last))
 		return append(out, body...)
+	case 9: // kill points at every file-system call of a save (child under ptrace): c19trace.go
+		return c19RunTrace(args)
 	case 8: // several saves of several users in one process, some refused half-way: c19seq.go
 		return c19RunSeq(args)
 	case 6: // arbitrary bytes as .fav4 (no .fav) -> Load converts; only crash/no crash is observed
